@@ -11,7 +11,8 @@ LEVEL_TEXT = ('Static lockstep, dirty=>recompute, proposal-accounting and siblin
               'rules over the per-shell bookkeeping of Sampler: every path that changes a '
               'shell\'s samples, proposal count, bound state or the discard/phase flags '
               'recomputes that shell\'s statistics; records of all shells are created and removed '
-              'together; proposals are counted before filtering.')
+              'together; proposals are counted before filtering.'
+              ' Plus exact linear-form algebra in the log domain for the estimator formulas (shell volume, evidence term, Kish sizes, per-sample weights, normalisation, f_live), marker agreement for empty shells and complete recomputation in update_shell_info.')
 
 
 def run(ctx):
